@@ -237,7 +237,7 @@ def present_pair(c, rng, disjoint=False):
     rng.shuffle(syms)
     d = dict(c)
     d.update({"A": A, "B": B, "syms": syms, "pres": [na, nb]})
-    if not disjoint and c.get("op") in ("incl", "union", "isect") and rng.random() < 0.08:
+    if not disjoint and c.get("op") in ("incl", "union", "isect") and rng.random() < 0.12:
         # B is a copy of A that is then edited through the API (final states changed, a few rules added): the operands
         # share whatever copy-on-write leaves shared, and the pair is "nearly equal"
         B2 = {"fin": list(A["fin"]), "rules": [list(r) for r in A["rules"]]}
@@ -250,7 +250,7 @@ def present_pair(c, rng, disjoint=False):
         elif how < 0.75:
             B2["fin"] = [q for q in st if rng.random() < 0.4]
         sy = syms_of(A) or [["a", 0]]
-        for _ in range(rng.choice([0, 0, 1, 1, 2])):
+        for _ in range(rng.choice([0, 0, 0, 1, 1, 2])):
             x = rng.choice(sy)
             r = [x[0], [rng.choice(st) for _ in range(x[1])], rng.choice(st)]
             if r not in B2["rules"]:
